@@ -98,8 +98,9 @@ def deps(prog, var):
 
     def go(v):
         c = byv[v]
-        for d in [c.get("base"), c.get("of")] + [t.split(":", 1)[1] for _, t, *_ in c.get("fields", [])
-                                                   if t.startswith(("ref:", "arr_ref:"))]:
+        for d in [c.get("base"), c.get("of")] + [x for _, t, *_ in c.get("fields", [])
+                                                   if t.startswith(("ref:", "arr_ref:", "pos_ref:", "map_ref:"))
+                                                   for x in t.split(":", 1)[1].split(",")]:
             if d and d not in out and d != var:
                 go(d)
                 if d not in out:
@@ -112,7 +113,8 @@ def ftype_src(t):
     if ":" in t:
         k, a = t.split(":", 1)
         return {"u": "Field[%s]", "arr_u": "Array[%s]", "map_u": "Map[String, %s]", "ref": "%s",
-                "arr_ref": "Array[%s]", "enum": "Enum[%s]", "set_u": "Set[%s]"}[k] % a
+                "arr_ref": "Array[%s]", "enum": "Enum[%s]", "set_u": "Set[%s]",
+                "pos_ref": "Array(items=[%s])", "map_ref": "Map[String, %s]"}[k] % a.replace(",", ", ")
     return FT[t][0]
 
 
@@ -133,6 +135,23 @@ def values(prog, t, depth=0):
         good = [("%s.%s" % (a, m), m) for m in me["members"][:2]]
         bad = [("%s.%s" % (o["var"], o["members"][0]), o["members"][0]) for o in others[:2]] + [("'zz'", "zz")]
         return good, bad
+    if k == "pos_ref":
+        # positional items: one instance of each listed class, in order
+        if depth > 2:
+            return [], [("3", 3)]
+        insts, docs = [], []
+        for v in a.split(","):
+            kw, doc = base_kwargs(prog, v, depth + 1)
+            insts.append("%s(**%s)" % (v, kw_src(kw)))
+            docs.append(doc)
+        d = NOJSON if any(x == NOJSON for x in docs) else docs
+        return [("[%s]" % ", ".join(insts), d)], [("[3]", [3]), ("3", 3)]
+    if k == "map_ref":
+        if depth > 2:
+            return [], [("3", 3)]
+        kw, doc = base_kwargs(prog, a, depth + 1)
+        inst = "%s(**%s)" % (a, kw_src(kw))
+        return [("{'k': %s}" % inst, NOJSON if doc == NOJSON else {"k": doc})], [("{'k': 3}", {"k": 3}), ("3", 3)]
     if k in ("ref", "arr_ref"):
         if depth > 2:
             return [], [("3", 3)]
